@@ -88,7 +88,12 @@ func newUninitializedScope(rootProvider *provider, parent *scope, ctx context.Co
 // initialize runs the scoped services with no returns (initialization
 // functions). These need to be called when the scope is created.
 func (s *scope) initialize() error {
-	for _, descriptor := range s.rootProvider.voidReturnScopedDescriptors {
+	// provider.Close clears the list under this lock
+	s.rootProvider.voidReturnScopedDescriptorsMu.RLock()
+	descriptors := s.rootProvider.voidReturnScopedDescriptors
+	s.rootProvider.voidReturnScopedDescriptorsMu.RUnlock()
+
+	for _, descriptor := range descriptors {
 		if _, err := s.createInstance(descriptor); err != nil {
 			// Dispose what earlier initializers created and release the
 			// derived context; the scope is never handed out.
